@@ -262,24 +262,25 @@ Qed.
    with the insufficient-state unsubscribe push. *)
 Theorem c01_pending_ends_client : forall c s n pos pep,
   c_var c = VClient -> pending s = S n -> up s = UIdle -> dl s = DIdle -> closed s = false ->
-  ch s = Sub pos pep ->
+  ch s = Sub pos pep -> cw s = [] ->
   exists s', run c s [LUnsub UInsuff; LUnsubHub; LUnsubOut] = Some s' /\
              log s' = log s ++ [FUnsubPush code_unsub_insufficient] /\
              ch s' = NoCh /\ hub s' = false /\ pending s' = n.
 Proof.
-  intros c s n pos pep Hv Hp Hu Hd Hc Hch.
+  intros c s n pos pep Hv Hp Hu Hd Hc Hch Hcw.
   set (s1 := set_up (set_ch (set_cw (set_pending s n) []) NoCh (g_pos s)) (UHub UInsuff)).
   assert (S1 : step c s (LUnsub UInsuff) = Some s1).
-  { unfold step, up_idle, is_server. rewrite Hu, Hp, Hv, Hch. reflexivity. }
-  set (s2 := set_up (set_hub s1 false) (UOut UInsuff)).
+  { unfold step, up_idle, is_server. rewrite Hu, Hp, Hv, Hch, Hcw. destruct (c_fix_delw c); reflexivity. }
+  set (s2 := set_up (set_hub (if c_fix_delw c then set_cw s1 [] else s1) false) (UOut UInsuff)).
   assert (S2 : step c s1 LUnsubHub = Some s2).
   { unfold step, dl_idle. change (up s1) with (UHub UInsuff). change (dl s1) with (dl s). rewrite Hd. reflexivity. }
   set (s3 := set_up (emit s2 (unsub_out_frame UInsuff)) UIdle).
   assert (S3 : step c s2 LUnsubOut = Some s3).
   { unfold step. change (up s2) with (UOut UInsuff). reflexivity. }
   exists s3. cbn [run]. rewrite S1, S2, S3. split; [reflexivity|].
-  unfold s3. rewrite emit_eq. change (closed s2) with (closed s). rewrite Hc.
-  cbn. auto.
+  unfold s3. rewrite emit_eq.
+  assert (E2 : closed s2 = closed s) by (unfold s2; destruct (c_fix_delw c); reflexivity).
+  rewrite E2, Hc. unfold s2. destruct (c_fix_delw c); cbn; auto.
 Qed.
 
 (* Server-side subscription: it closes the connection with the insufficient-state code. *)
